@@ -1,0 +1,54 @@
+//go:build verif
+
+// Contracts for the HTTP/2 server's frame dispatch and fingerprint capture (server.go), checked by /verif/govc.
+package http2
+
+//@ -- The captured fingerprint data is written only by processFrame (module-wide scan). Every other function,
+//@ -- in particular the process* handlers it calls, therefore leaves it unchanged.
+//@ writers [C03,C06,C07:capture-sites] metadata.HTTP2FingerprintingFrames fields Settings,WindowUpdateIncrement,Priorities,Headers only (*serverConn).processFrame
+
+//@ func goroutineLock.check
+//@   trusted
+//@   pure
+
+//@ func field serverConn.countErrorFunc
+//@   trusted
+//@   pure
+
+//@ func (*serverConn).countError :: sc, name, err -> result
+//@   props C13,C03
+//@   assigns nothing
+//@   ensures [C13:count-error-passes-error-through] result == err
+
+//@ func (*serverConn).vlogf
+//@   trusted
+//@   assigns nothing
+
+//@ func (*HeadersFrame).HasPriority :: f -> r
+//@   props C03,C19
+//@   requires f != nil
+//@   assigns nothing
+//@   ensures r <==> flag(f.FrameHeader.Flags, 32)
+
+//@ -- frames after an error GOAWAY, or on streams above the announced last stream, are discarded
+//@ pure func discarded(sc *serverConn, f Frame) bool = sc.inGoAway && (sc.goAwayCode != 0 || hdrOf(f).StreamID > sc.maxClientStreamID)
+//@ pure func accepted(sc *serverConn, f Frame) bool = (sc.sawFirstSettings || isptr(SettingsFrame, f)) && !discarded(sc, f)
+//@ pure func frameOK(f Frame) bool = (isptr(SettingsFrame, f) ==> unboxptr(SettingsFrame, f) != nil) && (isptr(MetaHeadersFrame, f) ==> unboxptr(MetaHeadersFrame, f) != nil && unboxptr(MetaHeadersFrame, f).HeadersFrame != nil) && (isptr(WindowUpdateFrame, f) ==> unboxptr(WindowUpdateFrame, f) != nil) && (isptr(PingFrame, f) ==> unboxptr(PingFrame, f) != nil) && (isptr(DataFrame, f) ==> unboxptr(DataFrame, f) != nil) && (isptr(RSTStreamFrame, f) ==> unboxptr(RSTStreamFrame, f) != nil) && (isptr(PriorityFrame, f) ==> unboxptr(PriorityFrame, f) != nil) && (isptr(GoAwayFrame, f) ==> unboxptr(GoAwayFrame, f) != nil) && (isptr(PushPromiseFrame, f) ==> unboxptr(PushPromiseFrame, f) != nil)
+
+//@ func (*serverConn).processFrame :: sc, f -> err
+//@   props C03,C13,C10
+//@   requires sc != nil && f != nil && frameOK(f)
+//@   requires hasMeta(sc.baseCtx) ==> ctxMeta(sc.baseCtx) != nil
+//@   structural [C03:captured-before-processing] stores_before_calls HTTP2FingerprintingFrames process
+//@   ensures [C13:first-frame-must-be-settings] !old(sc.sawFirstSettings) && !isptr(SettingsFrame, f) ==> isConnErr(err, 1)
+//@   ensures [C03:settings-replaced-by-latest-non-ack] old(accepted(sc, f)) && old(hasMeta(sc.baseCtx)) && isptr(SettingsFrame, f) && !flag(old(hdrOf(f)).Flags, 1) ==> len(old(ctxMeta(sc.baseCtx)).HTTP2Frames.Settings) == len(old(unboxptr(SettingsFrame, f).p)) / 6 && (forall i int :: 0 <= i && i < len(old(unboxptr(SettingsFrame, f).p)) / 6 ==> old(ctxMeta(sc.baseCtx)).HTTP2Frames.Settings[i].Id == settingID(old(unboxptr(SettingsFrame, f).p), i) && old(ctxMeta(sc.baseCtx)).HTTP2Frames.Settings[i].Val == settingVal(old(unboxptr(SettingsFrame, f).p), i))
+//@   ensures [C03:settings-ack-ignored] isptr(SettingsFrame, f) && flag(old(hdrOf(f)).Flags, 1) && old(hasMeta(sc.baseCtx)) ==> old(ctxMeta(sc.baseCtx)).HTTP2Frames.Settings == old(ctxMeta(sc.baseCtx).HTTP2Frames.Settings)
+//@   ensures [C03:first-window-update-wins] old(accepted(sc, f)) && old(hasMeta(sc.baseCtx)) && isptr(WindowUpdateFrame, f) ==> old(ctxMeta(sc.baseCtx)).HTTP2Frames.WindowUpdateIncrement == ite(old(ctxMeta(sc.baseCtx).HTTP2Frames.WindowUpdateIncrement) == 0, old(unboxptr(WindowUpdateFrame, f).Increment), old(ctxMeta(sc.baseCtx).HTTP2Frames.WindowUpdateIncrement))
+//@   ensures [C03:priority-frame-appended] old(accepted(sc, f)) && old(hasMeta(sc.baseCtx)) && isptr(PriorityFrame, f) ==> len(old(ctxMeta(sc.baseCtx)).HTTP2Frames.Priorities) == len(old(ctxMeta(sc.baseCtx).HTTP2Frames.Priorities)) + 1 && old(ctxMeta(sc.baseCtx)).HTTP2Frames.Priorities[:len(old(ctxMeta(sc.baseCtx).HTTP2Frames.Priorities))] == old(ctxMeta(sc.baseCtx).HTTP2Frames.Priorities) && old(ctxMeta(sc.baseCtx)).HTTP2Frames.Priorities[len(old(ctxMeta(sc.baseCtx).HTTP2Frames.Priorities))].StreamId == old(hdrOf(f)).StreamID && old(ctxMeta(sc.baseCtx)).HTTP2Frames.Priorities[len(old(ctxMeta(sc.baseCtx).HTTP2Frames.Priorities))].StreamDep == old(unboxptr(PriorityFrame, f).PriorityParam.StreamDep) && old(ctxMeta(sc.baseCtx)).HTTP2Frames.Priorities[len(old(ctxMeta(sc.baseCtx).HTTP2Frames.Priorities))].Exclusive == old(unboxptr(PriorityFrame, f).PriorityParam.Exclusive) && old(ctxMeta(sc.baseCtx)).HTTP2Frames.Priorities[len(old(ctxMeta(sc.baseCtx).HTTP2Frames.Priorities))].Weight == old(unboxptr(PriorityFrame, f).PriorityParam.Weight)
+//@   ensures [C03:headers-latest-block] old(accepted(sc, f)) && old(hasMeta(sc.baseCtx)) && isptr(MetaHeadersFrame, f) ==> len(old(ctxMeta(sc.baseCtx)).HTTP2Frames.Headers) == len(old(unboxptr(MetaHeadersFrame, f).Fields)) && (forall i int :: 0 <= i && i < len(old(unboxptr(MetaHeadersFrame, f).Fields)) ==> old(ctxMeta(sc.baseCtx)).HTTP2Frames.Headers[i].Name == old(unboxptr(MetaHeadersFrame, f).Fields)[i].Name)
+//@   ensures [C03:headers-priority-iff-flag] old(accepted(sc, f)) && old(hasMeta(sc.baseCtx)) && isptr(MetaHeadersFrame, f) ==> len(old(ctxMeta(sc.baseCtx)).HTTP2Frames.Priorities) == len(old(ctxMeta(sc.baseCtx).HTTP2Frames.Priorities)) + ite(flag(old(hdrOf(f)).Flags, 32), 1, 0) && (flag(old(hdrOf(f)).Flags, 32) ==> old(ctxMeta(sc.baseCtx)).HTTP2Frames.Priorities[len(old(ctxMeta(sc.baseCtx).HTTP2Frames.Priorities))].StreamId == old(hdrOf(f)).StreamID && old(ctxMeta(sc.baseCtx)).HTTP2Frames.Priorities[len(old(ctxMeta(sc.baseCtx).HTTP2Frames.Priorities))].Weight == old(unboxptr(MetaHeadersFrame, f).HeadersFrame.Priority.Weight))
+//@   ensures [C03:other-frames-capture-nothing] old(hasMeta(sc.baseCtx)) && (!old(accepted(sc, f)) || (!isptr(SettingsFrame, f) && !isptr(WindowUpdateFrame, f) && !isptr(PriorityFrame, f) && !isptr(MetaHeadersFrame, f))) ==> old(ctxMeta(sc.baseCtx)).HTTP2Frames.Settings == old(ctxMeta(sc.baseCtx).HTTP2Frames.Settings) && old(ctxMeta(sc.baseCtx)).HTTP2Frames.WindowUpdateIncrement == old(ctxMeta(sc.baseCtx).HTTP2Frames.WindowUpdateIncrement) && old(ctxMeta(sc.baseCtx)).HTTP2Frames.Priorities == old(ctxMeta(sc.baseCtx).HTTP2Frames.Priorities) && old(ctxMeta(sc.baseCtx)).HTTP2Frames.Headers == old(ctxMeta(sc.baseCtx).HTTP2Frames.Headers)
+//@   loop 1 invariant 0 <= i && i <= len(f#2.p) / 6 && len(settings) == i
+//@   loop 1 invariant forall k int :: 0 <= k && k < i ==> settings[k].Id == settingID(f#2.p, k) && settings[k].Val == settingVal(f#2.p, k)
+//@   loop 2 invariant -1 <= rangeindex && rangeindex < len(f#3.Fields) || (rangeindex == -1 && len(f#3.Fields) == 0)
+//@   loop 2 invariant len(headers) == rangeindex + 1 && (forall k int :: 0 <= k && k <= rangeindex ==> headers[k].Name == f#3.Fields[k].Name)
